@@ -271,6 +271,11 @@ pub fn vframe(codec: u8, f: &VF, idx: u64) -> (Vec<u8>, Vec<u8>, bool) {
                         4 => group.push((if hevc { h265t::PPS } else { h264t::PPS }, 1, 255)),
                         _ => {}
                     }
+                    if (sh >> 2) % 6 == 5 {
+                        // the sets follow the slice inside the buffer: the frame still carries the configuration
+                        let t0 = if hevc { [h265t::IDR_W, h265t::IDR_N, h265t::CRA][(sh % 3) as usize] } else { h264t::IDR };
+                        push(t0, 4, 1);
+                    }
                     for (t, l, fl) in group {
                         push(t, l, fl);
                     }
@@ -354,6 +359,35 @@ pub fn aframe(cfg: &CCfg, f: &AF, idx: u64) -> (Vec<u8>, Option<Vec<u8>>, bool) 
             if f.shape & 8 != 0 {
                 let ag = AdtsGene { protection_absent: true, profile: 1, sfi: 3, chan: 2, payload_len: 32, extra: 0, fill: 0, corrupt: 0, misc: 0 };
                 g.extend(ag.build(tag).0);
+            }
+            (g, None, false)
+        }
+        AKind::Garbage if f.shape % 4 == 2 => {
+            // the first bytes of another audio / container format, cut at every length: an ID3v1 trailer (exactly 128 bytes
+            // from "TAG"), RIFF/WAVE, FORM/AIFF, ADIF, Ogg, FLAC, .snd, MIDI, Matroska, an MP4 ftyp, an ID3v2 header
+            const MAGIC: [&[u8]; 12] = [
+                b"TAG",
+                b"RIFF\x24\x08\x00\x00WAVEfmt \x10\x00\x00\x00",
+                b"FORM\x00\x00\x08\x24AIFFCOMM\x00\x00\x00\x12",
+                b"ADIF\x00\x10\x00\x00\x00\x00\x00\x00\x00\x00\x00\x00",
+                b"OggS\x00\x02\x00\x00\x00\x00\x00\x00\x00\x00\x00\x00",
+                b"fLaC\x00\x00\x00\x22\x10\x00\x10\x00\x00\x00\x00\x00",
+                b".snd\x00\x00\x00\x18\x00\x00\x00\x00\x00\x00\x00\x03",
+                b"MThd\x00\x00\x00\x06\x00\x01\x00\x02\x01\xe0MT",
+                b"\x1a\x45\xdf\xa3\x9f\x42\x86\x81\x01\x42\xf7\x81\x01\x42\xf2\x81",
+                b"\x00\x00\x00\x18ftypM4A \x00\x00\x00\x00",
+                b"ID3\x04\x00\x00\x00\x00\x00",
+                b"RIFF",
+            ];
+            let m = MAGIC[(f.shape as usize / 4) % MAGIC.len()];
+            let len = if (f.shape as usize / 4) % MAGIC.len() == 0 { [128usize, 127, 129, 3, 4][(f.size % 5) as usize] } else { 1 + (f.size as usize % 24) };
+            let mut g: Vec<u8> = m.iter().copied().chain(filler(130, tag, 0).into_iter().map(|b| b & 0x7f)).take(len).collect();
+            if cfg.audio == 7 && g.len() >= 2 {
+                // Opus: make it an invalid packet as below (code 3, zero frames)
+                g[0] |= 3;
+                g[1] &= 0xc0;
+            } else if cfg.audio == 7 {
+                g = vec![g[0] | 3];
             }
             (g, None, false)
         }
